@@ -106,6 +106,8 @@ func (p *loginPeer) fmtCols(a string) []wCol {
 		return []wCol{{dt: 0x38}, {dt: 0xE1}, {dt: 0xE1}, {dt: 0xE1}}
 	case "badtype":
 		return []wCol{{dt: 0x26}, {dt: 0xE1}, {dt: 0xE1}}
+	case "vbnonce": // the nonce announced (and sent) as VARBINARY instead of LONGBINARY
+		return []wCol{{dt: 0x38}, {dt: 0xE1}, {dt: 0x25}}
 	}
 	return []wCol{{dt: 0x38}, {dt: 0xE1}, {dt: 0xE1}}
 }
@@ -123,6 +125,8 @@ func (p *loginPeer) keyBytes(a string) []byte {
 		return append(pk1, []byte("trailing junk")...)
 	case "emptykey":
 		return []byte{}
+	case "wskey":
+		return []byte("\n \t\r\n\x00 \n")
 	}
 	return pk1
 }
@@ -180,6 +184,9 @@ func (p *loginPeer) encode(e absPkg) []byte {
 				k := p.keyBytes(e.A)
 				w.u32(uint32(len(k)))
 				w.raw(k)
+			case c.dt == 0x25:
+				w.u8(len(p.nonce))
+				w.raw(p.nonce)
 			default:
 				w.u32(uint32(len(p.nonce)))
 				w.raw(p.nonce)
